@@ -177,6 +177,79 @@ impl CosmeticFilter {
 //@END
 }
 
+
+// ---- parse_after_sharp_nonscript: the two slices around an action token (R7 lifts of single statements) ----------------------
+// The function itself (labelled block with deferred initialisation, table of function pointers) is outside the Verus subset.
+// What its slices rely on: the token was found at i (memmem::find), the text ends with ')', and every token of the PAIRS table
+// starts with ':' and ends with '(' - the last is checked below on the table's own constants.
+pub open spec fn token_ok(t: Seq<u8>) -> bool { t.len() > 0 && t[0] == 58u8 && t[t.len() - 1] == 40u8 }
+
+fn vf_action_tokens_ok()
+{
+//@EXTRACT src/filters/cosmetic.rs :: impl CosmeticFilter :: fn parse_after_sharp_nonscript
+//@ BODYONLY
+//@ SAFETY C11.cosmetic.action_tokens.safety
+//@ FROM
+    const STYLE_TOKEN: &[u8] = b":style(";
+//@ ENDFROM
+//@ TO
+    const REMOVE_CLASS_TOKEN: &[u8] = b":remove-class(";
+//@ ENDTO
+//@ BYTESTR
+//@ SUBST R2
+    const STYLE_TOKEN
+//@ WITH
+    let STYLE_TOKEN
+//@ ENDSUBST
+//@ SUBST R2
+    const REMOVE_ATTR_TOKEN
+//@ WITH
+    let REMOVE_ATTR_TOKEN
+//@ ENDSUBST
+//@ SUBST R2
+    const REMOVE_CLASS_TOKEN
+//@ WITH
+    let REMOVE_CLASS_TOKEN
+//@ ENDSUBST
+//@END
+    assert(token_ok(STYLE_TOKEN@) && token_ok(REMOVE_ATTR_TOKEN@) && token_ok(REMOVE_CLASS_TOKEN@)); // OBL C11.cosmetic.action_tokens.shape
+}
+
+fn vf_action_arg<'a>(after_sharp: &'a str, i: usize, token: &[u8]) -> (arg: &'a str)
+    requires
+        vf_str::occurs_at(after_sharp.spec_bytes(), token@, i as int), token_ok(token@),
+        vf_str::pat_suffix::<char>(')', after_sharp.spec_bytes()),
+    ensures arg.spec_bytes() == after_sharp.spec_bytes().subrange(i + token@.len(), after_sharp.spec_bytes().len() - 1), // OBL C16.cosmetic.action_arg
+{
+    proof { assert(after_sharp.spec_bytes().subrange(i as int, i + token@.len())[token@.len() - 1] == 40u8); }
+//@EXTRACT src/filters/cosmetic.rs :: impl CosmeticFilter :: fn parse_after_sharp_nonscript
+//@ BODYONLY
+//@ SAFETY C11.cosmetic.action_arg.safety
+//@ FROM
+    let arg = &after_sharp[
+//@ ENDFROM
+//@ TOSTMT
+//@END
+    arg
+}
+
+fn vf_action_selector<'a>(after_sharp: &'a str, i: usize, token: &[u8]) -> (r: &'a str)
+    requires vf_str::occurs_at(after_sharp.spec_bytes(), token@, i as int), token_ok(token@),
+    ensures r.spec_bytes() == after_sharp.spec_bytes().subrange(0, i as int), // OBL C16.cosmetic.action_selector
+{
+    proof { assert(after_sharp.spec_bytes().subrange(i as int, i + token@.len())[0] == 58u8); }
+    let selector;
+//@EXTRACT src/filters/cosmetic.rs :: impl CosmeticFilter :: fn parse_after_sharp_nonscript
+//@ BODYONLY
+//@ SAFETY C11.cosmetic.action_selector.safety
+//@ FROM
+    selector = &after_sharp[
+//@ ENDFROM
+//@ TOSTMT
+//@END
+    selector
+}
+
 proof fn vf_canary() ensures false {}
 
 } // verus!
